@@ -384,6 +384,8 @@ class Array:
         if trailing_bit_length != 0:
             raise ValueError(f"Cannot extend Array as its data length ({len(self.data)} bits) is not a multiple of the format length ({self._dtype.bitlength} bits).")
 
+        if n is not None and n < 0:
+            raise ValueError(f"Cannot read a negative number of items ({n}) from a file.")
         new_data = Bits(f)
         max_items = len(new_data) // self._dtype.bitlength
         items_to_append = max_items if n is None else min(n, max_items)
